@@ -234,7 +234,13 @@ def _run_units(case, ctx, cl):
         b = _check_qty(ctx, cls, u2, case["v2"], info)
         if a is not None and b is not None:
             _check_ops(ctx, cls, a, b, info)
-            _check_ops(ctx, cls, a, cls(case["v"], u).as_unit(u2), info)
+            try:
+                a2 = cls(case["v"], u).as_unit(u2)
+            except Exception as e:
+                # every declared spelling - the empty one of Dimensionless included - is a legal target unit
+                ctx.viol(f"as_unit:raises:{type(e).__name__}", {**info, "exc": repr(e)})
+                return
+            _check_ops(ctx, cls, a, a2, info)
             c = _keep(a.as_unit(u2))
             ctx.count("as_unit_checks")
             if fx(float(c.si)) != fx(float(a.si)) or c.unit != u2 or type(c) is not cls:
